@@ -852,7 +852,13 @@ def shrink(sim, cls, case, fp):
         if fails(c):
             best = c
     i = len(best["ops"]) - 1
-    while i >= 0 and budget > 0:
+    changed = False
+    while budget > 0:
+        if i < 0:
+            if not changed:
+                break
+            i, changed = len(best["ops"]) - 1, False    # another pass: an earlier drop may have made a later one possible
+            continue
         sp = with_span(best)
         if sp and i in sp:
             i -= 1
@@ -864,6 +870,7 @@ def shrink(sim, cls, case, fp):
         budget -= 1
         if fails(c):
             best = c
+            changed = True
         i -= 1
     return best
 
